@@ -35,11 +35,15 @@ func (s *Service) putCommandHandler(conn redcon.Conn, cmd redcon.Command) {
 	}
 
 	var pc PutConfig
+	// NX/XX and the expiry options are independent: a command may carry one of each.
 	switch {
 	case putCmd.NX:
 		pc.HasNX = true
 	case putCmd.XX:
 		pc.HasXX = true
+	}
+
+	switch {
 	case putCmd.EX != 0:
 		pc.HasEX = true
 		pc.EX = time.Duration(putCmd.EX * float64(time.Second))
